@@ -1,3 +1,4 @@
+import RavenModel.Model.Plan
 import RavenModel.Model.Deliver
 /-! # C01 — an LMTP acceptance is a durable, per-recipient promise -/
 namespace Raven.Props.C01
@@ -53,5 +54,21 @@ example :
     let tx : Tx := { valid := true, mimeOK := true, folder := (b!"INBOX"), owners := [some a, none, some a, some r] }
     (deliverAll tx (fun _ => 0)).2 = [250, 550, 250, 250] ∧ (deliverAll tx (fun _ => 0)).1 (a, (b!"INBOX")) = 2 ∧
     (deliverAll tx (fun _ => 0)).1 (r, (b!"INBOX")) = 1 ∧ (deliverAll tx (fun _ => 0)).1 (a, (b!"Spam")) = 0 := by decide
+
+/-! ## the order of the code's statements (plan regenerated from /repo on every run) -/
+
+/-- C01.6  link last, reply after the link: in the plan of `Session.handleDATA` (with `DeliverMessage`, the MIME store and
+`AddMessageToMailboxPerUser` inlined) the message row, the header / address / blob / part rows, the UID allocation, the
+`message_mailbox` row and the `250` occur in exactly this order, the link and the allocation once each — the step order of
+the delivery machine (`Durable`, C07/C08) and of `Deliver.deliverAll` is the code's. -/
+theorem plan_link_last : Plan.deliveryOrder (Plan.trace (b!"lmtp.handleDATA")) = true := by decide
+
+/-- C01.6'  the acknowledgement comes after the last write, nothing is written in a deferred call or a goroutine. -/
+theorem plan_ack_after_writes : Plan.ackAfterCommit (Plan.trace (b!"lmtp.handleDATA")) = true := by decide
+
+/-- C01.6''  the steps of the plan, as numbers, are non-decreasing (the list form of `plan_link_last`) -/
+theorem plan_phases_sorted :
+    ((Plan.trace (b!"lmtp.handleDATA")).filterMap Plan.deliveryPhase).Pairwise (· ≤ ·) :=
+  Plan.nondecreasing_pairwise _ (by decide)
 
 end Raven.Props.C01
